@@ -242,8 +242,10 @@ def _check_main(ctx, res) -> None:
         m = cc.methods.get(mname)
         if not m:
             continue
-        cfg = CFG(m.node)
-        for c in calls_in(m.node):
+        from .common import inlined
+        m_node = inlined(idx, m)  # steps moved into private helpers are read in place
+        cfg = CFG(m_node)
+        for c in calls_in(m_node):
             if isinstance(c.func, ast.Attribute) and c.func.attr == "write_file" and c.args:
                 n163 += 1
                 r = norm(c.args[0])
@@ -309,13 +311,15 @@ def undo_newline_rule(ctx, res, rule: str) -> None:
         do, undo = c.methods.get("do"), c.methods.get("undo")
         if not do or not undo:
             continue
-        writes = [x for x in calls_in(undo.node) if call_name(x) == "write_file"]
+        from .common import inlined
+        do_node, undo_node = inlined(idx, do), inlined(idx, undo)  # steps moved into private helpers are read in place
+        writes = [x for x in calls_in(undo_node) if call_name(x) == "write_file"]
         if not writes:
             continue
         n += 1
-        captured = {t.attr for x in walk_local(do.node) if isinstance(x, ast.Assign) and isinstance(x.value, ast.Attribute)
+        captured = {t.attr for x in walk_local(do_node) if isinstance(x, ast.Assign) and isinstance(x.value, ast.Attribute)
                     and x.value.attr == "newlines" for t in x.targets if is_self_attr(t)}
-        cfg = CFG(undo.node)
+        cfg = CFG(undo_node)
         restores = [nd for nd in cfg.nodes if nd.kind == "stmt" and isinstance(nd.ast, ast.Assign) and any(
             isinstance(t, ast.Attribute) and t.attr == "newlines" for t in nd.ast.targets) and is_self_attr(nd.ast.value) and nd.ast.value.attr in captured]
         ok = bool(captured) and bool(restores)
